@@ -1013,6 +1013,15 @@ void VariableManager::assign_variable(const std::string &name,
             throw std::runtime_error("Invalid reference variable: " + name);
         }
 
+        // 参照先が const オブジェクト、または参照自体が const T& の場合は
+        // 参照経由の変更も不可
+        if ((target_var->is_const && target_var->is_assigned) ||
+            var->is_const) {
+            error_msg(DebugMsgId::CONST_REASSIGN_ERROR, name.c_str());
+            throw std::runtime_error(
+                "Cannot modify const variable through reference: " + name);
+        }
+
         if (interpreter_->is_debug_mode()) {
             std::cerr << "[VAR_MANAGER] Reference assignment: " << name
                       << " -> target variable (value before: "
